@@ -195,10 +195,15 @@ async def _scn(case, rec):
     acts = case["acts"]
     jitter = case["jitter"]
     orig_add = io.add_timeout
+    # guard against endless rescheduling; every 100-period backwards jump of the clock legitimately adds about a
+    # hundred runs before the clock is back where a harness timer waits (found by the coverage-guided shard: two
+    # such jumps in one case exceeded a fixed cap of 150 on the clean tree)
+    cap = CAP + 110 * sum(1 for a in acts if len(a) > 1 and a[1] == "back_100")
+    rec.cap = cap
 
     def add_timeout(deadline, callback, *a, **kw):
         rec.sched.append({"d": deadline, "now": io.time(), "back": rec.back, "epoch": rec.epoch})
-        if len(rec.sched) > CAP:
+        if len(rec.sched) > cap:
             if not rec.runaway:
                 rec.runaway = True
                 rec.fail("C39.runaway_rescheduling", {"n": len(rec.sched)})
@@ -480,7 +485,7 @@ def _analyse(case, rec):
     jitter = Fraction(case["jitter"])
     rel = P * Fraction(1, 2 ** 52)
     prev = {}
-    for idx, r in enumerate(rec.sched[:CAP]):
+    for idx, r in enumerate(rec.sched[:getattr(rec, "cap", CAP)]):
         e = r["epoch"]
         d, now = Fraction(r["d"]), Fraction(r["now"])
         u = _ulp(max(abs(r["d"]), abs(r["now"])))
